@@ -475,7 +475,11 @@ class StringExpr:
         if not isinstance(expression, Token):
             expression = Token(expression, 0)
 
-        self.translator = Interpolator(expression, braces_required)
+        # The parts are inserted as they are: it's the string as a
+        # whole which is escaped (or not) where it ends up.
+        self.translator = Interpolator(
+            expression, braces_required, char_escape=()
+        )
 
     def __call__(self, name, engine):
         return self.translator(name, engine)
